@@ -10,15 +10,18 @@ Model: lean/MlModel/Model/Prefetch.lean on top of Model/Queue.lean; theorems: Pr
 
 Case: {prefetch, threads:[client|init|next|stop|shutdown ...], sched} — see lib_prefetch.  Element values are
 100*i + j for the generator of thread i, its return value is 900 + i, so every observed value / marker
-identifies its generator.
+identifies its generator.  An `init` / `client` thread with build='raise'|'noniter' carries a lazy object
+that cannot be turned into a generator on the server (its constructor raises / it builds a non-iterable):
+the class of histories "init_generator FAILS, then requests go on" (seeded change C15-m1).
 """
+import collections
 import copy
 
 from harness import lib_prefetch as lp
 
 PID = 'C15'
 TITLE = 'The prefetching generator protocol delivers the generator faithfully'
-LEAN_MODULES = ['MlModel.Properties.C15', 'MlModel.Witness.C15']
+LEAN_MODULES = ['MlModel.Properties.C15', 'MlModel.Properties.C15Multi', 'MlModel.Witness.C15']
 TRUSTED = [
     'scheduler shim (harness/sched/shim.py) implements CPython Lock/RLock/Condition(FIFO notify, no spurious wake-up)/'
     'queue.Queue/Thread.start+join semantics; one atomic step = one synchronisation operation, the thread-local code after it '
@@ -38,10 +41,20 @@ PROVED_LIVENESS = (
     'Lemmas/PrefetchLive.lean), C15_variant (a lexicographic measure, 3*Queue.Phi of the queue view + protocol ranks, decreases on every step of '
     'every thread), C15_terminates (no infinite execution), C15_run_ends / C15_faithful_run / C15_failure_run (every scheduler: the execution is '
     'finite and ends with the client loop ended on exactly the generator / its exception); for configurations with several concurrent requests '
-    '(re-init / stop / shutdown) "no request stays blocked" is still decided by the scheduler on the real code and by exhaustive exploration')
+    '(healthy and FAILING init_generator / next / stop / shutdown) Properties/C15Multi.lean proves: every installed queue has its prefetch thread '
+    '(C15_installed_has_producer, C15_no_orphan_queue), a failing init_generator installs nothing (C15_failed_init_installs_nothing), a skipped stop '
+    'finds the prefetch thread past its last put (C15_skipped_stop_producer_past), and the server-level protocol blocks nobody '
+    '(C15_multi_dead_shape_partial: in a configuration without enabled step every blocked thread is inside an IteratorQueue operation or waits for one '
+    'that is; C15_shutdown_not_missed); the queue-level half of "no request stays blocked" for several concurrent consumers is still decided by the '
+    'scheduler on the real code and by exhaustive exploration')
 RULE = ('one-client cases: generator length 0..6 x failure position (none or any) x prefetch in {1,2,3} x batch in {1,2,3,5} (all combinations, '
         'thorough: x3 schedules); re-init / shutdown cases: a client plus 1-3 of {init_generator (0-2 elements), next_batch (1-3), '
         'stop_prefetch, shutdown} as concurrent request threads, so the re-initialisation / shutdown point is a scheduler choice; '
+        'FAILED init_generator cases: (nothing | a healthy init_generator | a healthy client) + an init_generator / client whose lazy object '
+        'raises at construction or builds a non-iterable + 1-2 next_batch requests (+ optionally shutdown / stop_prefetch / a second failing or '
+        'healthy init_generator), all small combinations x 3 schedules plus random ones; the run classifies what it exercised from the trace '
+        '(a request issued after the failed call on a fresh server / after a failed call that stopped a live generator / failed call of a '
+        'client loop / shutdown already requested) and the check exits 2 if one of these arms was not exercised; '
         'schedules: seeded uniform-random and PCT-style priorities chosen on the REAL code, replayed choice by choice on the Lean LTS '
         'comparing every executed operation label, the enabled thread set before every step and all outcomes; '
         'non-trivial = threads took turns at least 10 times; plus an end-to-end stage: the real client loop against the real server '
@@ -73,6 +86,8 @@ def gen_cases(ctx):
             ctx.count('kind', 'one-client' + ('' if fail_at is None else '+failure'))
             yield dict(prefetch=prefetch, sched=sched_spec(rng),
                        threads=[dict(kind='client', src=gen_src(0, n, fail_at), ret=900, batch=batch)])
+  # ---- init_generator whose lazy object cannot be turned into a generator (constructor raises / not iterable)
+  yield from gen_failed_init(ctx)
   # ---- re-initialisation / stop / shutdown at a scheduler-chosen point
   m = 3000 if ctx.quick else 40000
   for _ in range(m):
@@ -105,6 +120,58 @@ def gen_cases(ctx):
     yield dict(prefetch=rng.choice([1, 2, 3]), threads=ths, sched=sched_spec(rng))
 
 
+def _renumber(ths):
+  """element values / return values identify the thread that owns the generator"""
+  out = []
+  for i, p in enumerate(ths):
+    p = dict(p)
+    if 'n' in p:
+      p['src'] = gen_src(i, p.pop('n'), p.pop('fail_at', None))
+      p['ret'] = 900 + i
+    out.append(p)
+  return out
+
+
+def gen_failed_init(ctx):
+  """histories with an init_generator that FAILS on the server: what precedes it (nothing / a live generator),
+  how it fails, who issues it (bare request / client loop) and what follows (next_batch, shutdown, stop, another
+  init) — the order of the concurrent requests is the scheduler's choice."""
+  rng = ctx.rng
+  reps = 3 if ctx.quick else 8
+  bases = [[], [dict(kind='init', n=2)], [dict(kind='init', n=0)], [dict(kind='client', n=3, batch=2)],
+           [dict(kind='init', n=3, fail_at=1)]]
+  for base in bases:
+    for build in ('raise', 'noniter'):
+      for who in ('init', 'client'):
+        for nb in (1, 3):
+          for prefetch in (1, 2):
+            for _ in range(reps):
+              bad = dict(kind=who, build=build, **({'batch': 1} if who == 'client' else {}))
+              ths = _renumber(base + [bad, dict(kind='next', batch=nb)])
+              ctx.count('kind', f'failed-init:{build}:{who}')
+              yield dict(prefetch=prefetch, threads=ths, sched=sched_spec(rng))
+  for _ in range(500 if ctx.quick else 6000):
+    base = copy.deepcopy(rng.choice(bases + [[dict(kind='client', n=rng.randrange(0, 5), batch=rng.choice([1, 2, 3]))]]))
+    build = rng.choice(['raise', 'noniter'])
+    who = rng.choice(['init', 'init', 'client'])
+    ths = base + [dict(kind=who, build=build, **({'batch': rng.choice([1, 2])} if who == 'client' else {})),
+                  dict(kind='next', batch=rng.choice([1, 2, 3]))]
+    more = rng.choice(['', '', 'next', 'shutdown', 'shutdown', 'stop', 'bad2', 'init-after', 'init-after'])
+    if more == 'next':
+      ths.append(dict(kind='next', batch=rng.choice([1, 2])))
+    elif more == 'shutdown':
+      ths.append(dict(kind='shutdown'))
+    elif more == 'stop':
+      ths.append(dict(kind='stop', fatal=rng.random() < 0.4))
+    elif more == 'bad2':
+      ths.append(dict(kind='init', build=rng.choice(['raise', 'noniter'])))
+    elif more == 'init-after':
+      ths.append(dict(kind='init', n=rng.randrange(0, 3)))
+    rng.shuffle(ths)
+    ctx.count('kind', f'failed-init:{build}:{who}' + (f'+{more}' if more else ''))
+    yield dict(prefetch=rng.choice([1, 2, 3]), threads=_renumber(ths), sched=sched_spec(rng))
+
+
 def run_impl(case):
   return lp.run_real(case)
 
@@ -121,7 +188,7 @@ def _gens(case):
   """generator index -> (values before the first failure, fails?, return value)"""
   out = {}
   for i, p in enumerate(case['threads']):
-    if 'src' in p:
+    if 'src' in p and not _bad_build(p):
       vals = []
       fails = False
       for v in p['src']:
@@ -131,6 +198,13 @@ def _gens(case):
         vals.append(v)
       out[i] = (vals, fails, p['ret'])
   return out
+
+
+def _bad_build(p):
+  return p.get('build', 'ok') != 'ok'
+
+
+_BUILD_ERR = {'raise': 'ValueError', 'noniter': 'TypeError'}
 
 
 def _newest_queue(obs):
@@ -161,10 +235,43 @@ def oracle(case, obs):
       continue
     if tid == lp.MAIN:
       return f'the server thread stays blocked at "{label}" after the shutdown request (left: {obs["left"]})'
+  # -- an init_generator whose lazy object cannot be turned into a generator FAILS (with the constructor's exception /
+  #    a TypeError; with the shutdown time-out when the server is shutting down; with a transport error when it has
+  #    stopped), its client loop yields nothing, and afterwards the server answers as if that call had never installed
+  #    anything: from no generator at all, or from the previous, stopped one (never from a generator nobody feeds)
+  for i, p in enumerate(ths):
+    if not _bad_build(p):
+      continue
+    o = obs['threads'][i]
+    if not o['done']:
+      return f'the failing {p["kind"]} request {i + 1} never returned: {o}'
+    out = o.get('outcome')
+    ok_outs = [{'raise': 'rpc_error', 'code': 2, 'cause': _BUILD_ERR[p['build']]}, {'raise': 'TimeoutError'},
+               {'raise': 'rpc_error', 'code': 4}]
+    if out not in ok_outs:
+      return (f'init_generator of request {i + 1} (lazy object: {p["build"]}) ended with {out}; it has to fail with '
+              f'{_BUILD_ERR[p["build"]]} (or the shutdown time-out / a transport error of a stopped server)')
+    if out == {'raise': 'TimeoutError'} and not has_shutdown:
+      return f'init_generator of request {i + 1} answered with the shutdown time-out although nobody requested a shutdown'
+    if out == {'raise': 'rpc_error', 'code': 4} and not has_shutdown:
+      return f'init_generator of request {i + 1} met a stopped server although nobody requested a shutdown'
+    if p['kind'] == 'client' and o.get('yielded'):
+      return f'client {i + 1}, whose generator could not be constructed, yielded {o["yielded"]}'
+  if not gens:
+    # no generator ever exists: every next_batch is answered at once with the "generator is not set" time-out
+    for i, p in enumerate(ths):
+      o = obs['threads'][i]
+      if p['kind'] == 'next' and o.get('reply') is not None:
+        r = o['reply']
+        if r['elems'] or r['marker'] != {'raise': 'TimeoutError'}:
+          return (f'no init_generator of this history succeeds, yet request {i + 1} was answered with {r} instead of the '
+                  f'"generator is not set" time-out')
   # -- collect what every consumer was given
   given = []      # (thread index, elems, marker)
   for i, p in enumerate(ths):
     o = obs['threads'][i]
+    if p['kind'] == 'client' and _bad_build(p):
+      continue
     if p['kind'] == 'client':
       given.append((i, list(o.get('yielded', [])), o.get('outcome')))
     elif p['kind'] == 'next' and o.get('reply') is not None:
@@ -212,7 +319,7 @@ def oracle(case, obs):
       return (f'the failure of generator {k} was delivered but only {delivered[k]} of the elements {gens[k][0]} '
               f'produced before it')
   # -- one undisturbed client: exactly the generator
-  if n == 1 and ths[0]['kind'] == 'client':
+  if n == 1 and ths[0]['kind'] == 'client' and not _bad_build(ths[0]):
     vals, fails, ret = gens[0]
     o = obs['threads'][0]
     if not o['done']:
@@ -226,7 +333,7 @@ def oracle(case, obs):
       return f'prefetch thread still alive after the generator ended: {obs["producers"]}'
   # -- a client only ever sees its own generator (its stream may be cut short by a re-init / stop / shutdown)
   for i, p in enumerate(ths):
-    if p['kind'] != 'client':
+    if p['kind'] != 'client' or _bad_build(p):
       continue
     o = obs['threads'][i]
     vals, fails, ret = gens[i]
@@ -242,7 +349,61 @@ def oracle(case, obs):
   return None
 
 
+_COV = collections.Counter()     # what the runs exercised, classified from their traces (filled in the parent process)
+PROMISED = ['failed-init: construction raises', 'failed-init: not iterable', 'failed-init: issued by a client loop',
+            'failed-init: a request is issued after it, no generator was ever installed',
+            'failed-init: it stopped a live generator, a request is issued after it',
+            'failed-init: shutdown already requested', 'failed-init: waits for the generator lock / in a locked stop']
+
+
+def _cover(case, obs):
+  """classifies what a run exercised from the CASE and the TRACE of synchronisation operations only (never from the
+  outcomes, which a broken implementation changes)"""
+  ths = case.get('threads')
+  if not ths or not any(_bad_build(p) for p in ths) or 'trace' not in obs:
+    return
+  w = oracle(case, obs)
+  if w is not None and finding(case, w) is None:
+    _COV['(runs that failed the oracle)'] += 1
+  trace = obs['trace']
+  first, last, ops, where = {}, {}, collections.defaultdict(list), collections.defaultdict(dict)
+  for k, (tid, lbl) in enumerate(trace):
+    first.setdefault(tid, k)
+    last[tid] = k
+    ops[tid].append(lbl)
+    where[tid].setdefault(lbl, k)
+  installs = [k for k, (tid, lbl) in enumerate(trace) if lbl == 'thread_start thread']
+  shutdowns = [where[j + 1]['acquire shut'] for j, q in enumerate(ths)
+               if q['kind'] == 'shutdown' and 'acquire shut' in where[j + 1]]
+  for i, p in enumerate(ths):
+    if not _bad_build(p):
+      continue
+    tid = i + 1
+    if tid not in first:
+      continue
+    decided = where[tid].get('acquire gen', first[tid])     # where the handler sees the shutdown flag for the last time
+    if any(k < decided for k in shutdowns):
+      _COV['failed-init: shutdown already requested'] += 1
+      continue
+    if 'release gen' not in ops[tid]:
+      continue                                               # cut short / still inside
+    _COV['failed-init: construction raises' if p['build'] == 'raise' else 'failed-init: not iterable'] += 1
+    if p['kind'] == 'client':
+      _COV['failed-init: issued by a client loop'] += 1
+    stopped = any('#' in l for l in ops[tid])          # it ran maybe_stop on a live generator's queue
+    if stopped or 'join thread' in ops[tid]:
+      _COV['failed-init: waits for the generator lock / in a locked stop'] += 1
+    end = where[tid]['release gen']
+    later = [j for j, q in enumerate(ths) if q['kind'] == 'next' and first.get(j + 1, -1) > end]
+    if later:
+      if not any(k < end for k in installs):
+        _COV['failed-init: a request is issued after it, no generator was ever installed'] += 1
+      if stopped:
+        _COV['failed-init: it stopped a live generator, a request is issued after it'] += 1
+
+
 def nontrivial(case, obs):
+  _cover(case, obs)
   ch = obs['choices']
   return sum(1 for a, b in zip(ch, ch[1:]) if a != b) >= 10
 
@@ -274,20 +435,37 @@ def neighbours(case, rng):
 
 
 def shrink(case, fails):
+  def bad(c):
+    """a genuine failure of the candidate (a schedule that no longer fits the smaller case is not one)"""
+    w = fails(c)
+    return w is not None and not w.startswith('run did not finish')
+
+  def variants(c):
+    """the candidate itself; with a recorded schedule also under a few fresh schedules (the recorded choices do not
+    fit a case with fewer threads / shorter generators)"""
+    yield c
+    if c.get('sched', {}).get('kind') == 'replay':
+      for k in range(12):
+        yield dict(c, sched=dict(kind='random', seed=1000 + k))
+
   cur = case
   changed = True
   while changed:
     changed = False
-    # drop request threads (never the first client), then trailing source items
-    for i in range(len(cur['threads']) - 1, 0, -1):
+    # drop request threads (a healthy first client is kept), then trailing source items
+    keep0 = cur['threads'][0]['kind'] == 'client' and not _bad_build(cur['threads'][0])
+    for i in range(len(cur['threads']) - 1, 0 if keep0 else -1, -1):
+      if len(cur['threads']) <= 1:
+        break
       c = copy.deepcopy(cur)
       del c['threads'][i]
       for j, p in enumerate(c['threads']):
         if 'src' in p:
           p['src'] = [v if v == 'fail' else 100 * j + (v % 100) for v in p['src']]
           p['ret'] = 900 + j
-      if fails(c):
-        cur, changed = c, True
+      hit = next((v for v in variants(c) if bad(v)), None)
+      if hit is not None:
+        cur, changed = hit, True
         break
     if changed:
       continue
@@ -295,8 +473,9 @@ def shrink(case, fails):
       if p.get('src'):
         c = copy.deepcopy(cur)
         c['threads'][i]['src'].pop()
-        if fails(c):
-          cur, changed = c, True
+        hit = next((v for v in variants(c) if bad(v)), None)
+        if hit is not None:
+          cur, changed = hit, True
           break
   return cur
 
@@ -380,15 +559,26 @@ def _explore_stage(ctx):
   cases = [dict(prefetch=p, threads=[dict(kind='client', src=gen_src(0, n, f), ret=900, batch=b)])
            for n, f, p, b in one[:24 if ctx.quick else len(one)]]
   multi = [
-      [dict(kind='client', src=[0], ret=900, batch=1), dict(kind='init', src=[100], ret=901)],
       [dict(kind='client', src=[0, 1], ret=900, batch=2), dict(kind='shutdown')],
       [dict(kind='client', src=[0, 'fail'], ret=900, batch=2), dict(kind='stop', fatal=False)],
       [dict(kind='client', src=[0, 1], ret=900, batch=1), dict(kind='next', batch=1)],
-      [dict(kind='init', src=[0], ret=900), dict(kind='init', src=[100], ret=901), dict(kind='next', batch=1)],
       [dict(kind='init', src=[0, 1], ret=900), dict(kind='shutdown'), dict(kind='next', batch=2)],
+      # a failing init_generator (all schedules): on a fresh server, after / racing with a healthy one, with a shutdown
+      [dict(kind='init', build='raise'), dict(kind='next', batch=1)],
+      [dict(kind='client', build='noniter', batch=1), dict(kind='next', batch=2), dict(kind='next', batch=1)],
+      [dict(kind='init', src=[0, 1], ret=900), dict(kind='init', build='noniter'), dict(kind='next', batch=1)],
+      [dict(kind='init', src=[0], ret=900), dict(kind='init', build='raise'), dict(kind='shutdown')],
+      [dict(kind='client', src=[0, 1], ret=900, batch=1), dict(kind='init', build='raise')],
+      [dict(kind='init', build='raise'), dict(kind='init', build='noniter'), dict(kind='next', batch=1), dict(kind='shutdown')],
   ]
-  rng.shuffle(multi)
-  for ths in multi[:2 if ctx.quick else len(multi)]:
+  # 0.3-1 M states each (10-40 s): thorough tier only, so that the quick tier's wall time does not depend on the seed
+  heavy = [
+      [dict(kind='client', src=[0], ret=900, batch=1), dict(kind='init', src=[100], ret=901)],
+      [dict(kind='init', src=[0], ret=900), dict(kind='init', src=[100], ret=901), dict(kind='next', batch=1)],
+  ]
+  for ths in multi + ([] if ctx.quick else heavy):
+    if any(_bad_build(p) for p in ths):
+      ctx.count('explore', 'configurations with a failing init_generator')
     cases.append(dict(prefetch=rng.choice([1, 2]), threads=ths))
   reqs = [dict(model='prefetch', op='explore', prefetch=c['prefetch'], threads=c['threads'], schedule=[],
                limit=1500000 if ctx.quick else 6000000) for c in cases]
@@ -421,6 +611,13 @@ def _explore_stage(ctx):
 def extra(ctx):
   import logging
   import threading
+  from harness.core import InfraError
+  for k in PROMISED:
+    ctx.count('exercised', k, _COV.get(k, 0))
+  missing = [k for k in PROMISED if not _COV.get(k)]
+  # enforced on runs whose failed-init cases all pass the oracle (a failing one ends in a verdict, not here)
+  if missing and not _COV.get('(runs that failed the oracle)'):
+    raise InfraError(f'the runs did not exercise promised arms: {missing}')
   _explore_stage(ctx)
   logging.disable(logging.CRITICAL)
   hook = threading.excepthook
